@@ -15,6 +15,11 @@ theorem facts_framing :
     Gen.WalFacts.decoderChecksCrcBeforeDecode = true ∧ Gen.WalFacts.maxMsgSizeBytes < 4294967296 ∧
     0 < Gen.WalFacts.headBufSize := by decide
 
+/-- regenerated fact (T2): `Group.RotateFile` calls `headBuf.Flush()` before `os.Rename` (fix ed188e7).  The driver runs
+the model with `flushFirst = true`; the history theorems (`Props/C14Hist.lean`) are about that behaviour.  Reverting the
+fix makes this obligation fail (and the correspondence diverge on every un-synced rotation). -/
+theorem rotate_flushes_before_rename : Gen.WalFacts.rotateFlushesBeforeRename = true := by decide
+
 /-! ## big-endian words -/
 
 theorem be32_length (n : Nat) : (be32 n).length = 4 := rfl
@@ -418,7 +423,12 @@ def monotoneMarkers (c : Codec) (ps : List Bytes) : Bool :=
 /-- **The marker clause at full strength.**  For every buffer size, codec, history of writes / syncs / rotations
 (and, if `cuts`, crash cuts of the head), with valid payloads and monotone markers, when the head exists (as it does
 whenever the node searches): `SearchForEndHeight h` finds the marker iff its record is completely on disk.
-`flushFirst` = RotateFile flushes the buffer before renaming. -/
+`flushFirst` = RotateFile flushes the buffer before renaming (`true` = the current tree since fix ed188e7, `false` = the
+code before it).  `cuts` = crash cuts of the head allowed.  Status: `false false` refuted (old code,
+`C14_rotation_counterexample`); `true true` refuted (`C14_torn_tail_counterexample`, finding wal-search-torn-tail);
+`true false` refuted as literally stated — a search while the buffered writer holds the rest of a record sees a torn head
+(`C14_marker_unflushed_counterexample`, Props/C14Hist.lean) — and PROVED for flushed histories (`C14_marker_flushed`);
+the exact set of head cuts that break the search is `search_fails_iff_torn_len_or_data` (Props/C14Search.lean). -/
 def C14_marker_statement (flushFirst cuts : Bool) : Prop :=
   ∀ (B : Nat) (c : Codec) (ops : List Op) (h : Nat) (ign : Bool), 0 < B → Bounded c →
     (payloads ops).all (validB c) = true → monotoneMarkers c (payloads ops) = true →
@@ -437,14 +447,14 @@ def toyCodec : Codec :=
 
 theorem toyCodec_bounded : Bounded toyCodec := ⟨Go.Crc32c.checksumNat_lt, by decide⟩
 
-/-- witness for the un-flushed rotation (buffer of 16 bytes; at the real size 40960 the same shape is replayed on the
-real code by the harness, known finding `wal-rotate-unflushed-straddle`): marker 1 synced; two un-synced records, the
+/-- witness for the un-flushed rotation of the OLD code (buffer of 16 bytes; at the real size 40960 the same shape is replayed on the
+real code BEFORE fix ed188e7 by the harness, entry `wal-rotate-unflushed-straddle`, now `fixed`): marker 1 synced; two un-synced records, the
 second one straddles the buffer flush; RotateFile; marker 2 synced. -/
 def straddleOps : List Op :=
   [.write [0xEE, 1], .sync, .write [7], .write (List.replicate 12 0xFF), .rotate, .write [0xEE, 2], .sync]
 
 set_option maxRecDepth 100000 in
-/-- what the model (= the code) does on the witness: everything is on disk, the rotated file ends inside a record,
+/-- what the model with `flushFirst = false` (= the code before fix ed188e7) does on the witness: everything is on disk, the rotated file ends inside a record,
 and the search for either marker stops with the framing error "length exceeded" -/
 theorem straddle_behaviour :
     let g := run 16 false toyCodec {} straddleOps
@@ -455,7 +465,7 @@ theorem straddle_behaviour :
   decide
 
 set_option maxRecDepth 100000 in
-/-- **C14_rotation_counterexample**: with the current RotateFile (no flush) the marker clause is false even without
+/-- **C14_rotation_counterexample**: with the OLD RotateFile (`flushFirst = false`, the code before fix ed188e7) the marker clause is false even without
 any crash. -/
 theorem C14_rotation_counterexample : ¬ C14_marker_statement false false := by
   intro h
@@ -464,7 +474,7 @@ theorem C14_rotation_counterexample : ¬ C14_marker_statement false false := by
   decide
 
 set_option maxRecDepth 100000 in
-/-- with the proposed fix (flush before the rename) the same history is searched correctly -/
+/-- with the fix (flush before the rename; the current tree) the same history is searched correctly -/
 theorem straddle_fixed_by_flush :
     let g := run 16 true toyCodec {} straddleOps
     (search toyCodec g 2 true).isFound = true ∧ (search toyCodec g 1 true).isFound = true ∧
@@ -476,7 +486,7 @@ inside that record's data field -/
 def tornOps : List Op := [.write [0xEE, 1], .sync, .rotate, .write [1, 2, 3, 4], .sync, .cutHead 10]
 
 set_option maxRecDepth 100000 in
-/-- **C14_torn_tail_counterexample**: independent of the rotation defect (here `flushFirst = true`): a head file cut
+/-- **C14_torn_tail_counterexample** (current tree, `flushFirst = true`; independent of the repaired rotation defect): a head file cut
 inside the length or data field of its last record makes the search fail with a non-corruption error before it
 looks at the older file that holds the marker. -/
 theorem C14_torn_tail_counterexample : ¬ C14_marker_statement true true := by
